@@ -246,6 +246,16 @@ CO_ERR COCSdoRequestDownload(CO_CSDO *csdo,
  */
 void COCSdoInit(CO_CSDO *csdo, struct CO_NODE_T *node);
 
+/*! \brief  ABORT RUNNING SDO CLIENT TRANSFERS
+*
+*    This function ends all running SDO client transfers with the abort code
+*    0800 0022h (device state) and calls the completion callbacks.
+*
+* \param csdo
+*    Pointer to the first SDO client object
+*/
+void COCSdoAbortAll(CO_CSDO *csdo);
+
 /*! \brief  CHECK FOR RESPONSE TO SDO CLIENT
 *
 *    This function checks the given frame to be a response to SDO
